@@ -8,6 +8,7 @@ import Bgpfu.Drive.Policy
 import Bgpfu.Drive.Builders
 import Bgpfu.Drive.LogTable
 import Bgpfu.Drive.Irr
+import Bgpfu.Drive.Fetch
 /-! `modeld`: one request per line on stdin, one answer per line on stdout.
 A line is `<op> <arg>…` separated by single spaces; unknown ops / malformed args answer `bad-op`. -/
 
@@ -24,6 +25,7 @@ def dispatch (ws : List String) : String :=
     | "build" :: rest => Builders.drive rest
     | "logs" :: rest => LogTable.drive rest
     | "irr" :: rest => Irr.drive rest
+    | "fetch" :: rest => Xml.FetchDrive.drive rest
     | _ => none
   r.getD "bad-op"
 
